@@ -20,8 +20,9 @@ pub enum AvgWant<T> {
     /// integer: no partial sum (left to right) leaves the type; truncating division
     Exact(T),
     /// integer: r+g or (r+g)+b overflows the type (documented: "integer overflows cause panics in debug mode");
-    /// `.0` is the wrapped result an unchecked build would produce, `.1` says whether the exact total still fits
-    Overflow(T, bool),
+    /// `.0` is the wrapped result an unchecked build would produce, `.1` says whether the exact total still fits,
+    /// `.2` is the mathematically exact truncated average (always representable), which an overflow-free implementation returns
+    Overflow(T, bool, T),
     /// float: value computed in f64, tolerance
     Approx(f64, f64),
 }
@@ -83,7 +84,7 @@ macro_rules! int_avg {
             let want = if fits(s1) && fits(s2) {
                 AvgWant::Exact((s2 / 3) as $T)
             } else {
-                AvgWant::Overflow(r.wrapping_add(g).wrapping_add(b) / 3, fits(s2))
+                AvgWant::Overflow(r.wrapping_add(g).wrapping_add(b) / 3, fits(s2), (s2 / 3) as $T)
             };
             Some(AvgGot {
                 rgb: vkit::catch(|| Rgb { r, g, b }.average_rgb()),
@@ -282,17 +283,12 @@ pub fn colour_values<T: Comp>(t: &mut Tape, cx: &mut Cx) -> CaseResult {
     } else {
         // negative component of a signed checked integer type: full - c is not representable
         cx.label("inverted:signed-overflow(negative component)");
-        let wrapped: Vec<T> = inv.iter().map(|i| match i { Inv::Exact(x) | Inv::Overflow(x) => *x }).collect();
-        match vkit::catch(|| rgb.inverted_rgb()) {
-            Err(msg) => check!(cx, msg.contains("overflow"), "Rgb::<{}>::inverted_rgb panicked with {:?}", T::NAME, msg),
-            Ok(v) => check_eq!(cx, v.rd().to_vec(), wrapped, "Rgb::<{}>::inverted_rgb (wrapping)", T::NAME),
-        }
-        match vkit::catch(|| rgba.inverted_rgb()) {
-            Err(msg) => check!(cx, msg.contains("overflow"), "Rgba::<{}>::inverted_rgb panicked with {:?}", T::NAME, msg),
-            Ok(v) => {
-                check_eq!(cx, v.rd()[..3].to_vec(), wrapped, "Rgba::<{}>::inverted_rgb (wrapping)", T::NAME);
-                check_eq!(cx, v.a, a, "Rgba::<{}>::inverted_rgb alpha", T::NAME);
-            }
+        // a negative component is outside [zero, full]: full - c is not representable, so the result is not
+        // specified (panic, wrap or saturate are all acceptable); only "alpha untouched" is asserted
+        let _ = &inv;
+        let _ = vkit::catch(|| rgb.inverted_rgb());
+        if let Ok(v) = vkit::catch(|| rgba.inverted_rgb()) {
+            check_eq!(cx, v.a, a, "Rgba::<{}>::inverted_rgb alpha", T::NAME);
         }
     }
 
@@ -305,13 +301,14 @@ pub fn colour_values<T: Comp>(t: &mut Tape, cx: &mut Cx) -> CaseResult {
                     check_eq!(cx, v, *w, "{}::<{}>({:?},{:?},{:?}[,{:?}]).average_rgb()", which, T::NAME, r, g, b, a);
                 }
                 (AvgWant::Exact(w), Err(msg)) => fail!("{}::<{}>({:?},{:?},{:?}).average_rgb() panicked ({}) although every partial sum fits; want {:?}", which, T::NAME, r, g, b, msg, w),
-                (AvgWant::Overflow(_, total_fits), Err(msg)) => {
+                (AvgWant::Overflow(_, total_fits, _), Err(msg)) => {
                     cx.label(if *total_fits { "average:partial-sum-overflow-panics(documented)" } else { "average:sum-overflow-panics(documented)" });
                     check!(cx, msg.contains("overflow"), "{}::<{}>::average_rgb panicked with {:?}", which, T::NAME, msg);
                 }
-                (AvgWant::Overflow(w, _), Ok(v)) => {
-                    cx.label("average:sum-overflow-wrapped");
-                    check_eq!(cx, v, *w, "{}::<{}>({:?},{:?},{:?}).average_rgb() (wrapping build)", which, T::NAME, r, g, b);
+                (AvgWant::Overflow(w, _, exact), Ok(v)) => {
+                    // either the wrapped value of an unchecked build, or the exact average of an overflow-free implementation
+                    cx.label("average:sum-overflow-no-panic");
+                    check!(cx, v == *w || v == *exact, "{}::<{}>({:?},{:?},{:?}).average_rgb() = {:?}: neither the exact average {:?} nor the wrapped value {:?}", which, T::NAME, r, g, b, v, exact, w);
                 }
                 (AvgWant::Approx(w, tol), Ok(v)) => {
                     cx.label("average:float");
@@ -370,9 +367,9 @@ pub fn average_u8(i: u64, cx: &mut Cx) -> CaseResult {
                 cx.label("average:sum-overflow-panics(documented)");
                 check!(cx, msg.contains("overflow"), "{}::<u8>::average_rgb panicked with {:?}", which, msg);
             }
-            (AvgWant::Overflow(w, _), Ok(v)) => {
-                cx.label("average:sum-overflow-wrapped");
-                check_eq!(cx, v, *w, "{}::<u8>({},{},{}).average_rgb() (wrapping build)", which, r, g, b);
+            (AvgWant::Overflow(w, _, exact), Ok(v)) => {
+                cx.label("average:sum-overflow-no-panic");
+                check!(cx, v == *w || v == *exact, "{}::<u8>({},{},{}).average_rgb() = {}: neither the exact average {} nor the wrapped value {}", which, r, g, b, v, exact, w);
             }
             (AvgWant::Approx(..), _) => unreachable!(),
         }
